@@ -156,6 +156,8 @@ impl Cfg {
             Dl::Ms(10_000),
             Dl::Ms(3 * 3600 * 1000),
             Dl::Ms(YEAR_MS),
+            // beyond the supported span: clamped, still tracked with a timer, cancellable
+            Dl::Beyond(2 * 366 * 24 * 3600),
         ];
         let k = 1 + r.below(4);
         c.deadlines = (0..k).map(|_| *r.pick(&all)).collect();
